@@ -69,9 +69,14 @@ TxOfKind(h, k, f, d, q, vf) ==
       [] k = 20 -> [k |-> "gov_submit", from |-> f, amt |-> Pick({"10", "1000", "2000", "5000"}, h)]
       [] k = 21 -> [k |-> "gov_vote", from |-> Pick({"v1", "v2", "v3", f}, h), id |-> Pick(1..(IF np > 0 THEN np ELSE 1), h), opt |-> Pick({"yes", "veto"}, h)]
       [] k = 22 -> [k |-> "bad_nonce", from |-> f, to |-> Pick(Accts, h)]
+      [] k = 23 -> [k |-> "pc_delegate", from |-> f, val |-> Pick(0..2, h), amt |-> Pick(Amts, h)]
+      [] k = 24 -> [k |-> "pc_undelegate", from |-> d[1], val |-> d[2], amt |-> Pick(Amts, h)]
+      [] k = 25 -> [k |-> "pc_withdraw", from |-> d[1], val |-> d[2]]
+      [] k = 26 -> [k |-> "pc_setwd", from |-> f, to |-> Pick(Accts, h)]
+      [] k = 27 -> [k |-> "convert_coin", from |-> q[2], to |-> Pick(Accts, h), id |-> q[1], amt |-> Pick({"1000", "400000000000000000000"}, h)]
 
-KindOf(k0) == IF k0 <= 22 THEN k0 ELSE IF k0 <= 24 THEN 18 ELSE IF k0 <= 26 THEN 19 ELSE IF k0 = 27 THEN 17 ELSE 15
-RandTx(h, slot) == TxOfKind(h, KindOf(Pick(1..28, h)), Pick(Accts, h), Del(h), Liq(h), Vf(h))
+KindOf(k0) == IF k0 <= 27 THEN k0 ELSE IF k0 <= 29 THEN 18 ELSE IF k0 <= 31 THEN 19 ELSE IF k0 = 32 THEN 17 ELSE 15
+RandTx(h, slot) == TxOfKind(h, KindOf(Pick(1..33, h)), Pick(Accts, h), Del(h), Liq(h), Vf(h))
 
 NewVest(txs)   == Cardinality({j \in DOMAIN txs : txs[j].k = "vest_create" /\ txs[j].merge = FALSE})
 Count(txs, kk) == Cardinality({j \in DOMAIN txs : txs[j].k = kk})
@@ -102,7 +107,7 @@ Block ==
        /\ nl' = nl + Count(one, "liquidate")
        /\ np' = np + Count(one, "gov_submit")
        /\ blocks' = blocks + 1
-       /\ dels' = dels \cup {<<one[j].from, one[j].val>> : j \in {x \in DOMAIN one : one[x].k = "delegate"}}
+       /\ dels' = dels \cup {<<one[j].from, one[j].val>> : j \in {x \in DOMAIN one : one[x].k \in {"delegate", "pc_delegate"}}}
                         \cup {<<one[j].from, one[j].val2>> : j \in {x \in DOMAIN one : one[x].k = "redelegate"}}
        /\ vfund' = vfund \cup {<<one[j].to, one[j].from>> : j \in {x \in DOMAIN one : one[x].k = "vest_create" /\ one[x].merge = FALSE}}
        /\ daoh' = daoh \cup {one[j].from : j \in {x \in DOMAIN one : one[x].k \in {"dao_fund", "two_msgs"}}}
